@@ -35,7 +35,7 @@ FLAVOURS = {
     'fence': ['g++', '-std=c++17', '-O2', '-DNDEBUG', '-g0', '-fno-strict-aliasing'],
     'fence20': ['g++', '-std=c++20', '-O2', '-DNDEBUG', '-g0', '-fno-strict-aliasing'],
     # library asserts enabled, poisoned red zones; alignment checking off (alignment 1 is the documented default)
-    'asan': ['clang++', '-std=c++17', '-O1', '-g', '-fsanitize=address,undefined', '-fno-sanitize=alignment,nonnull-attribute',
+    'asan': ['clang++', '-std=c++17', '-O1', '-g', '-fsanitize=address,undefined', '-fno-sanitize=alignment,nonnull-attribute,returns-nonnull-attribute',
              '-fno-sanitize-recover=undefined', '-fno-omit-frame-pointer'],
 }
 
